@@ -4,8 +4,8 @@ from . import common as C
 
 MANIFEST = dict(
    technique="Lean 4 proof over access sets: (a) lock-sets of all process-wide / lazily written state extracted from the sources by a go/ast translator (regenerated into Gozod/Gen/LockSets.lean on every run) and proved race-free by evaluation of the whole table; (b) the C08/C12/C15 frame theorems: every schema operation writes only locations it allocated. Failing-schedule search: the harness built with -race, goroutines x operation classes on shared schemas, results cross-checked with run-alone results",
-   text="c14_racefree: any two accesses in the regenerated table to one location are both reads, both atomic, ordered by one sync.Once, or inside critical sections of one mutex (writers in W mode) — registry map, config pointer, modifier priority counter, regex caches. c14_schema_ops_read_only: chaining calls, ToJSONSchema and default-resolving Parse leave every pre-existing store location untouched (writes go to locations allocated by the call), so concurrent operations on shared schemas conflict on no schema location. Witnesses locales_unsynchronised and lazy_cache_unsynchronised: the two locations excluded (open known findings), both confirmed by the race detector.",
-   note="PARTIAL. The Go memory model, the sync primitives, the scheduler and deadlock freedom are not modelled; 'every result equals the run-alone result' is only checked by the -race runs (9 scenarios, 8 goroutines; thorough 16), which observe only the schedules that happen. The lock-set translator is a syntactic approximation (locks held = Lock/RLock seen earlier in the same function and not yet released; shared objects = package-level maps, map fields of structs carrying a mutex, atomics, fields assigned inside once.Do) over 7 files; accesses reached through other files are not listed. Meta() on non-string types writes the registry under its lock (race-free) but changes the receiver (C08 finding). Trusted: Lean kernel, axioms propext/Classical.choice/Quot.sound, go/ast translator, Go race detector.",
+   text="c14_racefree: any two accesses in the regenerated table to one location are both reads, both atomic, ordered by one sync.Once, or inside critical sections of one mutex (writers in W mode) — registry map, config pointer, modifier priority counter, regex caches. c14_schema_ops_read_only: chaining calls, ToJSONSchema and default-resolving Parse leave every pre-existing store location untouched (writes go to locations allocated by the call), so concurrent operations on shared schemas conflict on no schema location. conflicts_complete: a table without conflicting cells (LockSet.conflicts, evaluated by the driver to aim the race harness when the table proof breaks) is race-free. Witnesses locales_unsynchronised and lazy_cache_unsynchronised: the two locations excluded (open known findings), both confirmed by the race detector.",
+   note="PARTIAL. The Go memory model, the sync primitives, the scheduler and deadlock freedom are not modelled; 'every result equals the run-alone result' is only checked by the -race runs (9 hand-written scenarios + one generic scenario per shared location with callable accessor functions + one targeted scenario per conflict of the regenerated table; 8 goroutines; thorough 16), which observe only the schedules that happen. The lock-set translator is a syntactic approximation (locks held = Lock/RLock seen earlier in the same function and not yet released; shared objects = package-level maps, map fields of structs carrying a mutex, atomics, fields assigned inside once.Do) over 7 files; accesses reached through other files are not listed. Meta() on non-string types writes the registry under its lock (race-free) but changes the receiver (C08 finding). Trusted: Lean kernel, axioms propext/Classical.choice/Quot.sound, go/ast translator, Go race detector.",
    design="DESIGN.md §5 C14", category="proof")
 
 MODULES = ["Gozod.Proofs.C14"]
@@ -157,7 +157,8 @@ def run(res):
         else:
             C.tie_broken(res, "proof Gozod.Proofs.C14 (regenerated lock-set table)", detail)
     C.decide(res, "C14", data, key, "C14/race-scenarios", describe=describe)
-    res.coverage["rule"] = ("9 scenarios (shared Parse/StrictParse; chaining incl. Record.Partial; ToJSONSchema+Parse+chaining on relatives; registry "
+    res.coverage["rule"] = ("cache:<loc> = every callable accessor function of a shared location of the regenerated table (accessors_gen.go, regenerated by c14x) hammered with fresh (miss) and fixed (hit) arguments; "
+        "target:<loc> = the same restricted to the functions of a conflicting table cell, 10x longer, only when the table proof breaks; 9 hand-written scenarios (shared Parse/StrictParse; chaining incl. Record.Partial; ToJSONSchema+Parse+chaining on relatives; registry "
         "Add/Get/Has/Remove/Range + Meta/Describe; SetConfig/Config + Parse; first use of a lazy schema vs chaining (40 fresh schemas); regex-cache "
         "backed formats; RegisterLocale vs formatters; every schema type: probe-set parse + ToJSONSchema + Optional + Describe), each in its own "
         "process under the race detector, 8 goroutines x 60 iterations x rounds (thorough: 16 x 400), every result compared with the run-alone result "
